@@ -24,9 +24,16 @@ Tie to the code: the correspondence harness prints for every list, after every o
 driver runs `Model/PList.lean` alongside and prints the same from its heap, so layer L3 compares the link structure and
 the identity of the nodes one by one on every run.
 
-Not at pointer level (they keep their sequence-level models and theorems): the iterators' `add`/`remove`, `filter_mut`,
-the two sorts and the derived-list builders; after one of these the driver rebuilds the pointer-level state from the
-sequence-level one and both sides renumber their nodes (links are still compared, node identity across that operation is not). -/
+The iterator mutators (`cc_list_iter_add/remove/replace`, the descending and the zip variants) are pointer surgery on the
+node `iter->last`; the cursor arithmetic stays with the sequence-level iterator models (`C07List`), the surgery is modelled
+here (`iterAddAt`, `diterAddAt`, `iterRemoveAt`, `iterReplaceAt`, `zipAddAt`), run by the driver on the node at the cursor's
+position (so L3 compares node identity across iterator programs too) and proved for the single iterators
+(`iter_add_links`, `diter_add_links`, `iter_remove_links`); the zip variants are two such steps on two lists (model and L3
+only, no separate theorem).
+
+Not at pointer level (they keep their sequence-level models and theorems): `filter_mut`, the two sorts and the derived-list
+builders; after one of these the driver rebuilds the pointer-level state from the sequence-level one and both sides
+renumber their nodes (links are still compared, node identity across that operation is not). -/
 namespace CC.Properties.C04PList
 open CC CC.Chain CC.PList
 open CC.Spec
@@ -96,6 +103,41 @@ theorem history_refines_ideal (P : Params) (t1 t2 : Triple) (ops : List POp) (m 
   have := C04.dlist_history_refines_skipping P (ops.map POp.toOp) (ofList t1 [], ofList t2 []) m hp hc
   rw [h1, h5, h6]
   exact ⟨this.1, this.2.1⟩
+
+/-! ## iterator mutators on the node `iter->last` -/
+
+/-- `cc_list_iter_add` with `last` the node at position `k`: the list stays well-formed, the new node sits directly behind
+`last`, every other node keeps its identity and its place -/
+theorem iter_add_links (s : St) (l : Hdr) (pre post : List Cell) (a : Cell) (x : Nat) (m : Mem)
+    (r : PList.Repr s.heap l (pre ++ a :: post)) (hb : ∀ y, y ∈ idsOf (pre ++ a :: post) → y < s.fresh)
+    (ha : (m.allocT l.triple).1 = true) :
+    PList.Repr (iterAddAt s l a.1 (pre.length + 1) x m).2.1.heap (iterAddAt s l a.1 (pre.length + 1) x m).2.2.1
+      (pre ++ a :: (s.fresh, x) :: post) ∧
+    fwd (iterAddAt s l a.1 (pre.length + 1) x m).2.1.heap (iterAddAt s l a.1 (pre.length + 1) x m).2.2.1 =
+      (dataOf (pre ++ a :: post)).insertIdx (pre.length + 1) x := by
+  obtain ⟨_, _, k⟩ := (iterAddAt_spec s l pre post a x m r hb).2 ha
+  refine ⟨k.repr, ?_⟩
+  rw [k.repr.fwd]
+  have : (dataOf (pre ++ a :: post)).insertIdx (pre.length + 1) x = dataOf pre ++ a.2 :: x :: dataOf post := by
+    have h := insertIdx_mid (dataOf pre ++ [a.2]) (dataOf post) x
+    simp only [List.length_append, dataOf_length, List.length_cons, List.length_nil, List.append_assoc, List.singleton_append] at h
+    simpa using h
+  rw [this]; simp
+
+/-- `cc_list_diter_add` with `last` the node at position `k`: the new node sits directly in front of `last` -/
+theorem diter_add_links (s : St) (l : Hdr) (pre post : List Cell) (a : Cell) (x : Nat) (m : Mem)
+    (r : PList.Repr s.heap l (pre ++ a :: post)) (hb : ∀ y, y ∈ idsOf (pre ++ a :: post) → y < s.fresh)
+    (ha : (m.allocT l.triple).1 = true) :
+    PList.Repr (diterAddAt s l a.1 pre.length x m).2.1.heap (diterAddAt s l a.1 pre.length x m).2.2.1
+      (pre ++ (s.fresh, x) :: a :: post) :=
+  ((diterAddAt_spec s l pre post a x m r hb).2 ha).2.2.repr
+
+/-- `cc_list_iter_remove` / `cc_list_diter_remove`: exactly the node `last` leaves the chain -/
+theorem iter_remove_links (s : St) (l : Hdr) (pre post : List Cell) (a : Cell) (m : Mem)
+    (r : PList.Repr s.heap l (pre ++ a :: post)) (hb : ∀ y, y ∈ idsOf (pre ++ a :: post) → y < s.fresh) :
+    (iterRemoveAt s l a.1 m).1 = a.2 ∧
+    PList.Repr (iterRemoveAt s l a.1 m).2.1.heap (iterRemoveAt s l a.1 m).2.2.1 (pre ++ post) :=
+  ⟨(unlinkn_spec s l pre post a m r hb).1, (unlinkn_spec s l pre post a m r hb).2.2.repr⟩
 
 /-! ## Non-vacuity: a history with insertion in the middle, reversal, bulk copy and splice, read along both link directions -/
 example :
